@@ -195,7 +195,12 @@ def gen_C01(rng, tier):
         pre.append(['sleep', max(0.0, round(s + rng.choice([-0.15, -0.05, 0.0, 0.1, 0.3]), 3))])
         pre.append(['terminate_job', ua])
         ops[0:0] = pre
-    if rng.random() < 0.2:
+    if nfault and len(case['users']) == 1 and rng.random() < 0.2:
+        # close() while a loss is still inside its grace period (only the shutdown path is left to report it)
+        pc['maxtasksperchild'] = None
+        pc['lost_worker_timeout'] = rng.choice([1.0, 2.0])
+        ops.append(['close'])
+    elif rng.random() < 0.2:
         # message duplication: ACK / READY messages some worker already sent arrive a second time
         if pc.get('timeout') is None and rng.random() < 0.7:
             add_map(rng, c, ops, kind=rng.choice(['map', 'imap', 'imap_unordered']), n=rng.choice([2, 4, 6]),
@@ -246,6 +251,12 @@ def gen_C03(rng, tier):
             uids = add_applies(rng, c, ops, 1)
         if pc['synack'] and uids and rng.random() < 0.4:
             ops.append(['cancel', uids[0]])
+    if pc['synack'] and rng.random() < 0.25:
+        # the parent answers one accept message more than a minute late (busy event loop): the worker must keep
+        # waiting for exactly that answer
+        case['syn_delay'] = [rng.randint(0, 3), rng.choice([62.0, 70.0])]
+    if pc['synack'] and rng.random() < 0.5:
+        case['synq_poll'] = True        # syn queue of the polled kind (no get_payload)
     return case
 
 
@@ -285,6 +296,13 @@ def gen_C04(rng, tier):
         u2 = []
         add_applies(rng, c, u2, rng.randint(1, 2))
         case['users'].append(u2)
+    elif rng.random() < 0.3:
+        # close() while a loss is still inside its grace period: the remaining workers leave, and the job must
+        # still be failed once the period is over (nobody but the shutdown path is left to do it)
+        pc['maxtasksperchild'] = None
+        pc['lost_worker_timeout'] = rng.choice([1.0, 2.0, 3.0])
+        ops.append(['sleep', rng.choice([0, 0.1, 0.6])])
+        ops.append(['close'])
     return case
 
 
@@ -326,7 +344,10 @@ def gen_C05(rng, tier):
             if own:
                 opts['timeout'] = own
             prog = prog_long(rng, dur)
-            if lim and rng.random() < 0.12:
+            if lim and dur > lim and rng.random() < 0.25:
+                # the task made its process deaf to the termination signal: only SIGKILL ends it
+                prog = [['ignore_term']] + prog
+            elif lim and rng.random() < 0.12:
                 # the result arrives at the very moment the scanner is failing the job
                 prog = [['until', 'hard-intent', lim + 4.0], ['ret', rng.randint(0, 99)]]
             elif lim and rng.random() < 0.3:
@@ -383,6 +404,11 @@ def gen_C06(rng, tier):
     if rng.random() < 0.3:
         # slow result callbacks: scans go by while the result handler is inside a job's callback
         case['cb_delay'] = rng.choice([0.4, 1.2, 2.6])
+    elif rng.random() < 0.3:
+        # close() while jobs are still running into their limits: the shutdown path of the result handler runs
+        # side by side with the scanner
+        ops.append(['sleep', rng.choice([0, 0.2, 0.8])])
+        ops.append(['close'])
     return case
 
 
